@@ -165,6 +165,10 @@ type PeerOpts struct {
 	// LoginKey is the one sent in Login, the "token" argument of Ping/OfferWorkConn is the key itself
 	RawKeys  bool
 	LoginKey string
+	// QUIC: the transport is a QUIC connection to Server (the server's quicBindPort); every logical connection is
+	// a stream. QUICALPN: "" = the protocol name frp uses, "-" = none offered, anything else = offered verbatim
+	QUIC     bool
+	QUICALPN string
 }
 
 // RecvMsg is one control message received by a peer.
@@ -199,6 +203,7 @@ type Peer struct {
 	KeepTransport bool
 	conns         []net.Conn     // every logical connection opened (non-mux mode: separate transports)
 	raws          []*simnet.Conn // every transport connection dialled
+	q             *peerQuic
 }
 
 func (p *Peer) extra() []net.Conn {
@@ -266,6 +271,15 @@ func (p *Peer) rawConn() (net.Conn, error) {
 
 // Connect returns a new logical connection to the server: a mux stream if Mux, else a new transport connection.
 func (p *Peer) Connect() (net.Conn, error) {
+	if p.Opts.QUIC {
+		c, err := p.quicConnect()
+		if err == nil {
+			p.mu.Lock()
+			p.conns = append(p.conns, c)
+			p.mu.Unlock()
+		}
+		return c, err
+	}
 	if !p.Opts.Mux {
 		c, err := p.rawConn()
 		if err == nil {
@@ -558,6 +572,9 @@ func AwaitStart(conn net.Conn, timeout time.Duration) (M, error) {
 func (p *Peer) ServerGone() bool {
 	p.mu.Lock()
 	defer p.mu.Unlock()
+	if p.Opts.QUIC {
+		return p.q == nil || p.q.conn.Context().Err() != nil
+	}
 	for _, c := range p.raws {
 		if !c.OtherEndClosed() {
 			return false
@@ -567,6 +584,7 @@ func (p *Peer) ServerGone() bool {
 }
 
 func (p *Peer) Drop() {
+	p.quicDrop()
 	if p.sess != nil {
 		p.sess.Close()
 	}
